@@ -7,6 +7,7 @@ import (
 	"github.com/libp2p/go-libp2p/core/peer"
 
 	"github.com/ipfs/go-graphsync"
+	"github.com/ipfs/go-graphsync/donotsendfirstblocks"
 	"github.com/ipfs/go-graphsync/internal/verifrt"
 	"github.com/ipfs/go-graphsync/zz_verif/kit"
 )
@@ -20,13 +21,18 @@ const (
 
 // reqExchange runs one request against the reference responder, optionally
 // pausing it at block j and resuming it, and returns what the caller saw.
-func reqExchange(dag *kit.DAG, local, remote []bool, mode, at int, stale bool) (string, bool) {
+// stale: 0 = the whole first response arrives before the pause takes effect;
+// 1 = only its first part does and the remainder arrives after the resume
+// (the responder had sent it before it saw the cancel); 2 = only its first
+// part does and the remainder never arrives (the responder stopped at the
+// cancel).
+func reqExchange(dag *kit.DAG, local, remote []bool, mode, at int, stale int, exts []graphsync.ExtensionData) (string, bool) {
 	e := NewEnv(dag, append([]bool(nil), local...), 1, 0)
 	pA := peer.ID("peerA")
 	if mode == rpBlockHook {
 		e.BlockHookPause = at
 	}
-	rq := e.Start(pA, 0)
+	rq := e.Start(pA, 0, exts...)
 	kit.Drain()
 	answered := 0
 	var lastItems []RespItem
@@ -38,7 +44,7 @@ func reqExchange(dag *kit.DAG, local, remote []bool, mode, at int, stale bool) (
 			answered = len(news)
 			skip, _ := SkipOf(news[len(news)-1])
 			lastItems, lastStatus = RefResponder(dag, func(i int) bool { return remote[i] }, skip)
-			if stale && answered == 1 && len(lastItems) > 1 {
+			if stale != 0 && answered == 1 && len(lastItems) > 1 {
 				// only the first part of the first response arrives before the pause
 				cut := 1 + verifrt.Choose("arrived-before-pause", len(lastItems)-1)
 				e.Deliver(pA, rq.ID, lastItems[:cut], graphsync.PartialResponse)
@@ -61,14 +67,14 @@ func reqExchange(dag *kit.DAG, local, remote []bool, mode, at int, stale bool) (
 			e.BlockHookPause = 0
 			_ = e.RM.UnpauseRequest(e.Ctx, rq.ID)
 			kit.Drain()
-			if inFlight != nil {
+			if inFlight != nil && stale == 1 {
 				// the rest of the old response (the responder had sent it before
 				// it saw the cancel) arrives after the request was resumed and
 				// re-sent
 				e.Deliver(pA, rq.ID, inFlight, lastStatus)
-				inFlight = nil
 				kit.Drain()
 			}
+			inFlight = nil
 			respond()
 			kit.Drain()
 			continue
@@ -127,10 +133,37 @@ func VerifReq_PauseResume() {
 	if mode == rpBlockHook {
 		at = 1 + verifrt.Choose("pause-at", n)
 	}
-	stale := verifrt.Param("STALE", 0) == 1 && verifrt.Choose("old-response-still-in-flight", 2) == 1
-	base, _ := reqExchange(dag, local, remote, rpNone, 0, false)
-	with, wasPaused := reqExchange(dag, local, remote, mode, at, stale)
-	verifrt.Eventf("mode=%d at=%d stale=%v paused=%v", mode, at, stale, wasPaused)
+	stale := 0
+	if verifrt.Param("STALE", 0) == 1 {
+		stale = verifrt.Choose("first-response-cut-short", 3)
+	}
+	// optionally the caller itself asks to skip the first D blocks (it holds them)
+	var exts []graphsync.ExtensionData
+	if verifrt.Param("USERSKIP", 0) == 1 && verifrt.Choose("user-skip-extension", 2) == 1 {
+		// ... which is only meaningful for blocks it really holds: D is at most
+		// the number of leading blocks present in the local store
+		prefix := int64(0)
+		var visit func(i int) bool
+		visit = func(i int) bool {
+			if !local[i] {
+				return false
+			}
+			prefix++
+			for _, k := range dag.Kids[i] {
+				if !visit(k) {
+					return false
+				}
+			}
+			return true
+		}
+		visit(0)
+		d := verifrt.I64("user-skip")
+		verifrt.Assume(d >= 0 && d <= prefix)
+		exts = append(exts, graphsync.ExtensionData{Name: graphsync.ExtensionsDoNotSendFirstBlocks, Data: donotsendfirstblocks.EncodeDoNotSendFirstBlocks(d)})
+	}
+	base, _ := reqExchange(dag, local, remote, rpNone, 0, 0, exts)
+	with, wasPaused := reqExchange(dag, local, remote, mode, at, stale, exts)
+	verifrt.Eventf("mode=%d at=%d stale=%d paused=%v", mode, at, stale, wasPaused)
 	verifrt.Eventf("uninterrupted: %s", base)
 	verifrt.Eventf("paused:        %s", with)
 	if wasPaused {
@@ -145,7 +178,7 @@ func VerifReq_PauseResume() {
 			diverge = true
 		}
 	}
-	if stale {
+	if stale == 1 {
 		verifrt.AssertKF(base == with, "C06 pausing and resuming a request changed what the caller received or what was stored", "C06-F1", true)
 	} else {
 		_ = diverge
